@@ -1,5 +1,6 @@
 """Triage only (not a check).  Run with the pre-built extension copy:
 PYTHONPATH=/repo/build/lib.linux-x86_64-cpython-312 /venv/bin/python <this file>"""
+import _overlay
 from pysph.base.particle_array import ParticleArray
 pa = ParticleArray(name='f', x=[1., 2., 3.])
 pa.add_property('A', stride=3)
